@@ -397,7 +397,8 @@ func serializeIPv6HeaderTLVOptions(buf []byte, options []*ipv6HeaderTLVOption, f
 		length += l
 	}
 	if fixLengths {
-		pad := length % 8
+		// pad up to the next multiple of 8 octets
+		pad := (8 - length%8) % 8
 		if pad != 0 {
 			if !dryrun {
 				serializeTLVOptionPadding(buf[length-2:], pad)
